@@ -58,6 +58,9 @@ def to_formula(v, facts, fname):
         x = to_term(v[2], facts, fname)
         f = ('or', [('cmp', '==', x, to_term(a, facts, fname)) for a in v[3][1]])
         return f if v[1] == 'in' else ('not', f)
+    if k == 'cmp' and v[1] in ('is', 'is not') and (is_const(v[2]) or is_const(v[3])):
+        f = cmp_formula('==', v[2], v[3], facts, fname)
+        return f if v[1] == 'is' else ('not', f)
     if k == 'cmp' and v[1] in ('==', '!=', '<', '<=', '>', '>='):
         return cmp_formula(v[1], v[2], v[3], facts, fname)
     if k == 'bool':
@@ -71,10 +74,30 @@ def to_formula(v, facts, fname):
         raise AnalysisError('predicate {}: a failing evaluation makes the predicate {!r}'.format(fname, v[2][1]))
     if k == 'call' and v[1] == 'isinstance' and len(v[2]) == 2 and v[2][0] == ('attr', INST, 'imm') and v[2][1] == ('name', 'Arithmetic'):
         return ('cmp', '==', ('ISARITH',), ('const', True))
+    if k == 'call' and v[1] == 'isinstance' and len(v[2]) == 2 and v[2][0] == ('attr', INST, 'imm') and v[2][1] == ('name', 'Offset'):
+        return ('cmp', '==', ('ISOFFSET',), ('const', True))
+    if k == 'call' and v[1] == 'isinstance' and len(v[2]) == 2 and v[2][1][0] == 'name' and v[2][0] == INST:
+        # the class of the instruction item: decided per rule from the class parse_item builds for the rule's mnemonic
+        return ('cmp', '==', ('KIND', 'inst isa {}'.format(v[2][1][1])), ('const', True))
+    if k == 'call' and v[1] == 'isinstance' and len(v[2]) == 2 and v[2][1][0] == 'name' and rooted_at_imm(v[2][0]):
+        # the class of the immediate expression (or of a part of it): a fact about the kind of the operand
+        return ('cmp', '==', ('KIND', '{} isa {}'.format(show(v[2][0]).replace("('sym', 'INST')", 'inst'), v[2][1][1])), ('const', True))
+    if k == 'cmp' and v[1] in ('in', 'not in') and v[3][0] == 'name' and v[2][0] == 'attr' and v[2][1] == ('attr', INST, 'imm'):
+        # which table the reference of the immediate expression is found in: a fact about the kind of the operand
+        f = ('cmp', '==', ('KIND', '{} in {}'.format(v[2][2], v[3][1])), ('const', True))
+        return f if v[1] == 'in' else ('not', f)
     if k == 'ifexp':
         c, a, b = to_formula(v[1], facts, fname), to_formula(v[2], facts, fname), to_formula(v[3], facts, fname)
         return ('or', [('and', [c, a]), ('and', [('not', c), b])])
     raise AnalysisError('predicate {}: result {} is not a comparison'.format(fname, show(v)[:100]))
+
+
+def rooted_at_imm(v):
+    while isinstance(v, tuple) and v and v[0] == 'attr':
+        if v == ('attr', INST, 'imm'):
+            return True
+        v = v[1]
+    return False
 
 
 TRUE, FALSE = ('and', []), ('or', [])
@@ -94,13 +117,16 @@ def cmp_formula(op, a, b, facts, fname):
             # X where its evaluation succeeds, the constant K where it fails: representable when `K <op> y` is false (the
             # predicate is simply false where X is undefined, which is how formulas read undefined terms anyway)
             fk = cmp_formula(op, x[2], y, facts, fname) if left else cmp_formula(op, y, x[2], facts, fname)
+            if fk == TRUE and is_const(y) and y[1] is None:
+                # `value is None` for a value with the fallback None: "the evaluation failed"
+                return ('cmp', '==', ('UNDEF',), ('const', True))
             if fk != FALSE:
                 raise AnalysisError('predicate {}: a failing evaluation does not make the comparison false'.format(fname))
             return cmp_formula(op, x[1], y, facts, fname) if left else cmp_formula(op, y, x[1], facts, fname)
     if is_const(a) and is_const(b):
         va, vb = a[1], b[1]
         try:
-            r = {'==': va == vb, '!=': va != vb}.get(op)
+            r = {'==': va == vb, '!=': va != vb, 'is': va is vb or va == vb, 'is not': not (va is vb or va == vb)}.get(op)
             if r is None:
                 r = {'<': va < vb, '<=': va <= vb, '>': va > vb, '>=': va >= vb}[op]
         except TypeError:
@@ -138,7 +164,9 @@ def to_term(v, facts, fname):
             return ('IMMC', v[3][1][1])
         return ('IMM',)
     if v[0] == 'call' and v[1] in facts.funcs and len(v[2]) >= 2 and v[2][0] == i and v[2][1] == p:
-        # wrapper around i.imm.eval (judged by R-auipc)
+        # wrapper around i.imm.eval (judged by R-auipc); evaluated against the live environment or against another table
+        if len(v[2]) >= 3 and v[2][2][0] == 'name' and v[2][2] != e and v[2][2][1] != 'labels':
+            return ('IMMC', v[2][2][1])
         return ('IMM',)
     if v[0] == 'bin' and v[1] == '%':
         return ('mod', to_term(v[2], facts, fname), to_term(v[3], facts, fname))
